@@ -55,6 +55,15 @@ func checkC16(c *Ctx) {
 	// 'stored' event
 	nR := c.borrow(checkC15, "C15/ACTOR/broadcast-unconditional", "C16/RELAY/unconditional", "every hub operation that relays stored/deleted events to the listeners does so on every path")
 	r.Floor("C16/RELAY/unconditional", "borrowed obligations", nR, 1)
+	// a delivery that overwrites the index with a list it loaded before releasing the lock undoes
+	// what happened in between: a stored message vanishes without a 'deleted' event, a deleted
+	// one comes back without a 'stored' event (decided by C09's critical-section rule)
+	nA := c.borrow(func(c2 *Ctx) {
+		if pm2 := c2.pairing(); pm2.ok {
+			c2.c09File(pm2)
+		}
+	}, "C09/GUARD/file/(*file.Store).AddMessage", "C16/ATOMIC/file-add", "file store: AddMessage loads the index, appends and writes it back inside one critical section")
+	r.Floor("C16/ATOMIC/file-add", "borrowed obligations", nA, 1)
 }
 
 func (c *Ctx) c16Stored(pm *pairModel) {
